@@ -92,7 +92,7 @@ def toC (a : Array Int) (base : Nat) : Coeffs := fun j => a.getD (base + j.val) 
 /-- the coefficient probabilities of block type `t`: Go's `proba.BandsPtr[t][n].Probas[ctx][k]`
     is the RFC's `coeff_probs[t][band(n)][ctx][k]` -/
 def CoefOK (prob : Slot → UInt8) (probs : Array Nat) (t : Nat) : Prop :=
-  ∀ i ctx k, (prob (coefSlot t i ctx k)).toNat =
+  ∀ i ctx k, i < 16 → ctx ≤ 2 → k ≤ 10 → (prob (coefSlot t i ctx k)).toNat =
     probs.getD (((t * 8 + Tables.coeffBands.getD i 0) * 3 + ctx) * 11 + k) 128
 
 theorem toC_set (a : Array Int) (base i : Nat) (v : Int) (h : base + 16 ≤ a.size) (hi : i < 16) :
@@ -189,19 +189,33 @@ theorem coeffTree_leaf (probs : Nat → Nat) (i : Nat) (d : BoolDec) (hi : i = 0
   apply coeffTree_leaf'
   rcases hi with rfl | rfl <;> decide
 
+theorem coeffNodes_half : ∀ i ∈ coeffNodes, i >>> 1 ≤ 10 := by decide
+
+/-- `coeff_tree` only looks at the probabilities of its 11 nodes -/
+theorem coeffTree_congr (p q : Nat → Nat) (h : ∀ n, n ≤ 10 → p n = q n) (fuel i : Nat) (d : BoolDec)
+    (hi : i ∈ coeffNodes) :
+    BoolDec.readTree.go coeffTree p fuel i d = BoolDec.readTree.go coeffTree q fuel i d := by
+  induction fuel generalizing i d with
+  | zero => rfl
+  | succ fuel ih =>
+    rw [readTree_go_succ, readTree_go_succ, h _ (coeffNodes_half i hi)]
+    rcases coeffTree_step i hi (d.readBool (q (i >>> 1))).1 with ⟨h1, _⟩ | ⟨h1, h2⟩
+    · rw [if_pos h1, if_pos h1]
+    · rw [if_neg h1, if_neg h1]; exact ih _ _ h2
+
 /-- **one block**: the RFC-shaped tree `blockP` on the reference decoder is `Spec.VP8.readBlock.go` -/
 theorem blockP_runD (prob : Slot → UInt8) (probs : Array Nat) (t : Nat) (dq0 dq1 : Int) (base : Nat)
     (hc : CoefOK prob probs t) (hfix : FixedOK prob) :
-    ∀ (fuel i ctx : Nat) (az : Bool) (coeffs : Array Int) (ovf : Bool) (d : BoolDec), base + 16 ≤ coeffs.size →
+    ∀ (fuel i ctx : Nat) (az : Bool) (coeffs : Array Int) (ovf : Bool) (d : BoolDec), ctx ≤ 2 → base + 16 ≤ coeffs.size →
       runD prob (blockP t dq0 dq1 fuel i ctx az (toC coeffs base)) d =
         some (((readBlock.go probs t dq0 dq1 base fuel i ctx az coeffs ovf d).1,
                toC (readBlock.go probs t dq0 dq1 base fuel i ctx az coeffs ovf d).2.1 base),
               (readBlock.go probs t dq0 dq1 base fuel i ctx az coeffs ovf d).2.2.2) := by
   intro fuel
   induction fuel with
-  | zero => intro i ctx az coeffs ovf d _; rfl
+  | zero => intro i ctx az coeffs ovf d _ _; rfl
   | succ fuel ih =>
-    intro i ctx az coeffs ovf d hsz
+    intro i ctx az coeffs ovf d hctx hsz
     rw [blockP_succ]
     by_cases hi : i < 16
     · rw [dif_pos hi]
@@ -213,13 +227,15 @@ theorem blockP_runD (prob : Slot → UInt8) (probs : Array Nat) (t : Nat) (dq0 d
           (if az then 2 else 0) d (by cases az <;> simp)
         rw [hr] at this; exact this
       rw [readBlock_go_succ probs t dq0 dq1 base fuel i ctx az coeffs ovf d hi tok d1 hr,
-        posP_runD prob _ _ (hc i ctx) _ _ _ az d tok d1 hr]
+        posP_runD prob (coefSlot t i ctx) (fun n => (prob (coefSlot t i ctx n)).toNat) (fun _ => rfl) _ _ _ az d tok d1
+          (by rw [coeffTree_congr _ (fun n => probs.getD (((t * 8 + Tables.coeffBands.getD i 0) * 3 + ctx) * 11 + n) 128)
+                (fun n hn => hc i ctx n hi hctx hn) 16 _ d (by cases az <;> decide)]; exact hr)]
       by_cases h11 : tok = 11
       · rw [if_pos h11, if_pos h11]; rfl
       · rw [if_neg h11, if_neg h11]
         by_cases h0 : tok = 0
         · rw [if_pos h0, if_pos h0]
-          exact ih _ _ _ _ _ _ hsz
+          exact ih _ _ _ _ _ _ (by omega) hsz
         · rw [if_neg h0, if_neg h0, magP_runD prob hfix tok (by omega) (by omega)]
           show runD prob (rd (.fixed 128) >>= _) _ = _
           rw [runD_rd_bind, hfix 128 (by omega)]
@@ -231,7 +247,7 @@ theorem blockP_runD (prob : Slot → UInt8) (probs : Array Nat) (t : Nat) (dq0 d
                 else Int.ofNat (tokenMagnitude tok d1).1) * (if i = 0 then dq0 else dq1)) ≠
               (if ((tokenMagnitude tok d1).2.readBool 128).1 then - (Int.ofNat (tokenMagnitude tok d1).1)
                 else Int.ofNat (tokenMagnitude tok d1).1) * (if i = 0 then dq0 else dq1))
-            ((tokenMagnitude tok d1).2.readBool 128).2 (by rw [setIfInBounds_size']; exact hsz)
+            ((tokenMagnitude tok d1).2.readBool 128).2 (by split_ifs <;> omega) (by rw [setIfInBounds_size']; exact hsz)
           rw [toC_set _ _ _ _ hsz hi] at this
           exact this
     · rw [dif_neg hi, readBlock_go_16 _ _ _ _ _ _ _ _ _ _ _ _ hi]
@@ -242,7 +258,7 @@ theorem blockP_runD (prob : Slot → UInt8) (probs : Array Nat) (t : Nat) (dq0 d
     on the reference decoder return the same end-of-block position and the same 16 dequantised
     coefficients in the same (de-zig-zagged) positions, and leave the decoders in step. -/
 theorem getCoeffs_eq_readBlock (prob : Slot → UInt8) (probs : Array Nat) (t ctx : Nat) (dq0 dq1 : Int)
-    (first base : Nat) (coeffs : Array Int) (hc : CoefOK prob probs t) (hfix : FixedOK prob) (hf : first ≤ 16)
+    (first base : Nat) (coeffs : Array Int) (hc : CoefOK prob probs t) (hfix : FixedOK prob) (hf : first ≤ 16) (hctx : ctx ≤ 2)
     (hsz : base + 16 ≤ coeffs.size) {F : Bytes} {r : BoolReader} {d : BoolDec} (hs : Sim F r d)
     (hfree : TreeFree prob (T.getCoeffs t ctx dq0 dq1 first (toC coeffs base)) r) :
     ∃ r', runR prob (T.getCoeffs t ctx dq0 dq1 first (toC coeffs base)) r =
@@ -251,7 +267,7 @@ theorem getCoeffs_eq_readBlock (prob : Slot → UInt8) (probs : Array Nat) (t ct
       Sim F r' (readBlock probs t first ctx dq0 dq1 base coeffs d).2.2.2 := by
   have ht := tree_transfer prob _ hs hfree
   rw [getCoeffs_block t ctx dq0 dq1 first hf] at ht ⊢
-  rw [blockP_runD prob probs t dq0 dq1 base hc hfix 16 first ctx false coeffs false d hsz] at ht
+  rw [blockP_runD prob probs t dq0 dq1 base hc hfix 16 first ctx false coeffs false d hctx hsz] at ht
   cases hrr : runR prob (blockP t dq0 dq1 16 first ctx false (toC coeffs base)) r with
   | none => rw [hrr] at ht; exact absurd ht (by simp [TRel])
   | some x =>
